@@ -93,6 +93,7 @@ struct Sim {
   std::vector<int> pipe_fd_order; // creation order: events log the index, never the raw number
   int fork_count = 0;
   bool deadlock = false;
+  uint64_t stall_total = 0; // simulated time added by injected parent stalls
   uint64_t quiet_calls = 0;
   uint64_t read_by_index[8] = {0, 0, 0, 0, 0, 0, 0, 0}; // bytes the parent has read per pipe descriptor (creation order)
   uint64_t unread_stdout_at_exit = 0; // consecutive parent calls during which nothing in the world changed
@@ -223,7 +224,9 @@ void sched_point(const char* what, uint64_t arg = 0) {
   if (!g.ch.alive && g.ch.pid > 0) g.calls_after_child_exit++;
   uint64_t cost = 1 + choose(40, "cost");
   if (g.stall_den && chance(1, g.stall_den, "stall")) {
-    cost += 10000 + (uint64_t)choose(490, "stall.ms") * 1000;
+    uint64_t stall = 10000 + (uint64_t)choose(490, "stall.ms") * 1000;
+    cost += stall;
+    g.stall_total += stall;
     VS_FAULT("parent_stall");
   }
   g.clock += cost;
@@ -908,12 +911,17 @@ void scen_run_process() {
     }
     timed_out_expected = c.killed_by_parent;
     if (c.killed_by_parent) VS_PROBE("timeout_killed_child");
-    // bounded liveness: the call ends within timeout + poll granularity + TERM->KILL grace + stalls
-    uint64_t bound = timeout + 1000000 + 5000000 + 2000000 + 600000 * (g.calls + 1) / 8;
-    if (c.killed_by_parent && t_end - t_start > bound + s.total_sleep * 0) {
-      // (stalls are bounded by 500 ms per call; the loose term above covers them)
-      if (t_end - t_start > bound) fail("run_process/timeout_not_enforced", s.family, "with a timeout of " + std::to_string(timeout) + " us the call took " + std::to_string(t_end - t_start) + " us of simulated time");
+    // bounded liveness ("a timeout ends the child"): once a timeout is given the call ends within
+    // timeout + poll granularity (1 s) + SIGTERM->SIGKILL grace (5 s) + another poll (1 s), plus the
+    // delays the simulator itself injected (stalls, per-call costs, child step costs) - whether the
+    // child honours SIGTERM or not
+    uint64_t bound = timeout + 1000000 + 5000000 + 1000000 + 500000 + g.stall_total + g.calls * 50 + c.steps * 5;
+    if (t_end - t_start > bound) {
+      fail("run_process/timeout_not_enforced", s.ignores_term ? s.family + "/ignores_sigterm" : s.family,
+          "with a timeout of " + std::to_string(timeout) + " us the call took " + std::to_string(t_end - t_start) + " us of simulated time (bound " + std::to_string(bound) + " us" +
+              (s.ignores_term ? "; the child ignores SIGTERM, so only SIGKILL can end it" : "") + ")");
     }
+    if (s.ignores_term && c.killed_by_parent && c.death_value == SIGKILL) VS_PROBE("sigkill_after_ignored_sigterm");
   } else if (g.kills_sent) {
     fail("run_process/killed_without_timeout", s.family, "run_process sent signal " + std::to_string(g.first_kill_sig) + " to the child although no timeout was given");
   }
@@ -1173,7 +1181,7 @@ int main(int argc, char** argv) {
       {"child program", "stub: vsim/child.c, a scripted peer that makes one non-blocking step per simulator command"},
       {"scheduling between parent and child, clock, poll timeouts, EINTR/EAGAIN/short transfers", "simulator (link-time wrappers in engines/sim_proc.cc)"}};
   e.expected_probes = {"payload_larger_than_pipe", "output_larger_than_pipe", "clock_jumped_over_child_sleep", "poll_timed_out", "blocking_waitpid", "timeout_killed_child", "check_threw_on_nonzero_status",
-      "child_died_by_own_signal", "child_exited_with_unread_output_in_pipe", "communicate_with_deadline_returned", "communicate_without_deadline_returned", "communicate_deadline_passed", "parent_busy_wait_skipped", "lifecycle_waited", "destructor_killed_running_child", "destructor_found_child_exited", "run_process_called_repeatedly", "grandchild_kept_pipes_open"};
+      "child_died_by_own_signal", "child_exited_with_unread_output_in_pipe", "communicate_with_deadline_returned", "communicate_without_deadline_returned", "communicate_deadline_passed", "parent_busy_wait_skipped", "lifecycle_waited", "destructor_killed_running_child", "destructor_found_child_exited", "run_process_called_repeatedly", "grandchild_kept_pipes_open", "sigkill_after_ignored_sigterm"};
   e.expected_faults = {"EINTR@poll", "EINTR@waitpid", "spurious_EAGAIN@read", "spurious_EAGAIN@write", "short_read", "short_write", "parent_stall"};
   return driver_main(argc, argv, e);
 }
